@@ -399,6 +399,23 @@ pub fn mutators(c: &Case) -> Vec<Mutator<Case>> {
         );
     }
 
+    if plutus && app("script-witness-for-input") && c.tx.wits.plutus_v1.is_none() && c.tx.wits.plutus_v2 == Some(vec![plutus_script()]) {
+        // base B4: the inputs are locked by the PlutusV2 script
+        v.push(
+            Mutator::new("wits.plutus_v2=none", "script-witness-for-input", &["plutus2"], &["wits.6", "body.11"], |c: &mut Case| c.tx.wits.plutus_v2 = None).also(&["redeemer-coverage", "datum-witness"]),
+        );
+        v.push(Mutator::new("wits.plutus_v2, redeemers, datums = none", "script-witness-for-input", &["plutus2", "rdm", "datums"], &["wits.6", "wits.4", "wits.5", "body.11"], |c: &mut Case| {
+            c.tx.wits.plutus_v2 = None;
+            c.tx.wits.redeemers = None;
+            c.tx.wits.datums = None;
+        }));
+        v.push(
+            Mutator::new("wits.plutus_v2=[another script]", "script-witness-for-input", &["plutus2"], &["wits.6"], |c: &mut Case| c.tx.wits.plutus_v2 = Some(vec![plutus_script_other()]))
+                .also(&["redeemer-coverage", "datum-witness"])
+                .also_other(&["extraneous-script"]),
+        );
+    }
+
     // ---- datums, redeemers, integrity hash, language
     if plutus && app("datum-witness") && c.tx.wits.datums == Some(vec![bases::datum()]) {
         v.push(Mutator::new("wits.datums=[99]", "datum-witness", &["datums"], &["wits.4", "body.11"], |c: &mut Case| c.tx.wits.datums = Some(vec![Data::Int(99)])));
